@@ -13,8 +13,8 @@ private theorem iter_succ' {α : Type} (f : α → α) (n : Nat) (x : α) : iter
 
 private theorem execInstr_shared {F : Facts} (hg : Good F) (cfg : Cfg) (req : Req) (i : Instr) (s : Shared × Loc) :
     (execInstr F cfg req i s).1 = s.1 := by
-  obtain ⟨h1, h2⟩ := hg
-  cases i <;> simp [execInstr, h1]
+  obtain ⟨h1, h2, h3⟩ := hg
+  cases i <;> simp [execInstr, h1, h3]
   simp only [dispatch, h2]
   split <;> simp
 
@@ -156,20 +156,21 @@ private theorem runAlone_eq {F : Facts} (hg : Good F) (cfg : Cfg) (reg : Registr
                      resp := some (filterNames cfg (reqCtx F cfg req) es) }
       | none => { ctx := reqCtx F cfg req, obs := mwObs F cfg req ++ handlerObs cfg.mode req (reqCtx F cfg req),
                   resp := none } := by
-  obtain ⟨h1, h2⟩ := hg
+  obtain ⟨h1, h2, h3⟩ := hg
   unfold runAlone prog
   rw [exec_append, exec_append, exec_append, exec_fns]
-  have hmid : ∀ (sh : Shared) (loc : Loc), exec F cfg req [.park, .unpark, .inject] (sh, loc) =
-      (sh, { loc with ctx := inject cfg.mode req loc.ctx }) := by
-    intro sh loc; simp [exec, execInstr, h1]
+  have hmid : ∀ (sh : Shared) (loc : Loc),
+      exec F cfg req [.lookId, .lookSess, .publish, .park, .unpark, .inject] (sh, loc) =
+        (sh, { loc with ctx := inject cfg.mode (effReq req loc) loc.ctx }) := by
+    intro sh loc; simp [exec, execInstr, h1, h3]
   rw [hmid]
   by_cases hn : req.method = .notify
   · simp only [hn, if_true, mwObs, reqCtx]
-    simp [exec, execInstr, dispatch, sh0, listOf, handlerObs, hn]
+    simp [exec, execInstr, dispatch, sh0, listOf, handlerObs, hn, effReq]
   · simp only [hn, if_false, mwObs]
     rw [exec_mws]
     simp only [exec, List.foldl_cons, List.foldl_nil, execInstr, dispatch, h2, sh0, reqCtx]
-    cases hl : listOf reg req.method <;> simp
+    cases hl : listOf reg req.method <;> simp [effReq]
 
 /-! ### Context functions: registration order -/
 
@@ -421,9 +422,17 @@ theorem C13_fold_in_registration_order :
 theorem C13_sse_shape :
     Mcp.Gen.cfSSESingleCtxFunc = true ∧ Mcp.Gen.cfSSEAppliesToPost = true ∧ Mcp.Gen.cfSSEInjects = true := by decide
 
-theorem C13_code_facts : codeFacts = { foldAscending := true, sharedSlot := false, listCache := false } := by decide
+/-- The session a request is processed with is found by a single keyed read of the session registry — the adapter
+    keeps no state of its own and returns the manager's answer, the manager reads its id-keyed map once under its
+    lock and returns what it read, `handlePost` looks up under the request's own `Mcp-Session-Id` header and hands on
+    exactly that session, legacy SSE does one `sync.Map` Load under the POST's own `sessionId` parameter: there is no
+    remembered lookup outside the registry. -/
+theorem C13_session_lookup_direct : Mcp.Gen.cfSessionLookups = expectedLookups := by decide
 
-theorem C13_code_good : Good codeFacts := by rw [C13_code_facts]; exact ⟨rfl, rfl⟩
+theorem C13_code_facts :
+    codeFacts = { foldAscending := true, sharedSlot := false, listCache := false, lookupCache := false } := by decide
+
+theorem C13_code_good : Good codeFacts := by rw [C13_code_facts]; exact ⟨rfl, rfl, rfl⟩
 
 /-- Non-interference instantiated at the facts regenerated from today's source. -/
 theorem C13_code_noninterference (cfg : Cfg) (reg : Registry) (reqs : Nat → Req) (sched : List Nat) (i : Nat)
@@ -436,16 +445,16 @@ theorem C13_code_noninterference (cfg : Cfg) (reg : Registry) (reqs : Nat → Re
 /-- If the enriched context is parked in a server-level slot, there is a schedule of two requests in which a
     middleware of request 0 sees request 1's values. -/
 theorem C13_shared_slot_bleeds :
-    let F : Facts := { foldAscending := true, sharedSlot := true, listCache := false }
-    let sched := [0, 0, 0, 0, 1, 1, 1, 1, 0, 0, 0, 0, 1, 1, 1, 1]
+    let F : Facts := { foldAscending := true, sharedSlot := true, listCache := false, lookupCache := false }
+    let sched := [0, 0, 0, 0, 0, 0, 0, 1, 1, 1, 1, 1, 1, 1, 0, 0, 0, 0, 1, 1, 1, 1]
     ((run F wCfg wReqs sched (initState F wCfg wReg wReqs)).ts 0).todo = [] ∧
       ((run F wCfg wReqs sched (initState F wCfg wReg wReqs)).ts 0).loc ≠ runAlone F wCfg wReg (wReqs 0) := by
   decide
 
 /-- If a list handler caches the filtered list, the second caller gets the first caller's view. -/
 theorem C13_list_cache_bleeds :
-    let F : Facts := { foldAscending := true, sharedSlot := false, listCache := true }
-    let sched := [0, 0, 0, 0, 0, 0, 0, 0, 1, 1, 1, 1, 1, 1, 1, 1]
+    let F : Facts := { foldAscending := true, sharedSlot := false, listCache := true, lookupCache := false }
+    let sched := [0, 0, 0, 0, 0, 0, 0, 0, 0, 0, 0, 1, 1, 1, 1, 1, 1, 1, 1, 1, 1, 1]
     ((run F wCfg wReqs sched (initState F wCfg wReg wReqs)).ts 1).todo = [] ∧
       ((run F wCfg wReqs sched (initState F wCfg wReg wReqs)).ts 1).loc.resp ≠
         (runAlone F wCfg wReg (wReqs 1)).resp := by
@@ -453,8 +462,24 @@ theorem C13_list_cache_bleeds :
 
 /-- A descending fold is observable: the third function no longer sees the first one's value. -/
 theorem C13_reverse_fold_differs :
-    (runAlone { foldAscending := false, sharedSlot := false, listCache := false } wCfg wReg (wReqs 0)).ctx.get 12 ≠
-      (runAlone { foldAscending := true, sharedSlot := false, listCache := false } wCfg wReg (wReqs 0)).ctx.get 12 := by
+    (runAlone { foldAscending := false, sharedSlot := false, listCache := false, lookupCache := false } wCfg wReg (wReqs 0)).ctx.get 12 ≠
+      (runAlone { foldAscending := true, sharedSlot := false, listCache := false, lookupCache := false } wCfg wReg (wReqs 0)).ctx.get 12 := by
+  decide
+
+/-- If the session lookup goes through a lock-free one-entry "last lookup" cache whose id and session are published
+    as two separate words, there is a schedule of three requests on two sessions in which a request sent on session
+    `s0` is processed with session `s1`: request 0 (session `s0`) runs alone and leaves `lastId = s0`; request 1
+    (session `s1`) misses and stores `lastSess := s1` but has not yet stored the id; request 2 (session `s0` again)
+    compares ids, hits, and reads `lastSess = s1` — all its stages see `s1`, alone it sees `s0`. -/
+theorem C13_lookup_cache_bleeds :
+    let F : Facts := { foldAscending := true, sharedSlot := false, listCache := false, lookupCache := true }
+    let reqs : Nat → Req := fun i => if i = 1 then wReqs 1 else wReqs 0
+    let sched := [0, 0, 0, 0, 0, 0, 0, 0, 0, 0, 0, 1, 1, 1, 1, 1, 2, 2, 2, 2, 2, 2, 2, 2, 2, 2, 2]
+    ((run F wCfg reqs sched (initState F wCfg wReg reqs)).ts 2).todo = [] ∧
+      (reqs 2).sid = t!"s0" ∧
+      (((run F wCfg reqs sched (initState F wCfg wReg reqs)).ts 2).loc.obs.map (·.ctx.session)) =
+        [some t!"s1", some t!"s1"] ∧
+      ((runAlone F wCfg wReg (reqs 2)).obs.map (·.ctx.session)) = [some t!"s0", some t!"s0"] := by
   decide
 
 /-! ### Non-vacuity -/
@@ -463,7 +488,7 @@ theorem C13_reverse_fold_differs :
     user and shown to the admin. -/
 example :
     let F := codeFacts
-    let sched := [0, 1, 0, 1, 1, 0, 0, 1, 0, 1, 1, 0, 0, 1, 1, 0]
+    let sched := [0, 1, 0, 1, 1, 0, 0, 1, 0, 1, 1, 0, 0, 1, 1, 0, 1, 0, 0, 1, 0, 1]
     ((run F wCfg wReqs sched (initState F wCfg wReg wReqs)).ts 0).loc.resp = some [t!"admin-tool", t!"open-tool"] ∧
       ((run F wCfg wReqs sched (initState F wCfg wReg wReqs)).ts 1).loc.resp = some [t!"open-tool"] := by
   decide
